@@ -107,11 +107,16 @@ Record timer := mkT {
   t_target : Z; t_deadline : Z; t_interval : Z;     (* dt_timer *)
   t_pending : Z;               (* ds_pending_data *)
   t_cfg : option (Z * Z * Z * Z);                   (* dt_pending_config: clock target deadline interval *)
-  t_susp : bool                (* DISPATCH_QUEUE_IS_SUSPENDED(owner) *)
+  t_susp : bool;               (* DISPATCH_QUEUE_IS_SUSPENDED(owner) *)
+  t_reg : Z                    (* du_state registration: 1 = registered (_dispatch_unote_wlh != NULL); 0 and 2 =
+                                  DU_STATE_UNREGISTERED, 0 before _dispatch_source_install (ds_is_installed = 0), 2 after
+                                  _dispatch_timer_unote_unregister or the one-shot fire of a dispatch_after timer
+                                  (event.c:1057-1058); the source is installed once (source.c:_dispatch_source_install
+                                  asserts !ds_is_installed), so 2 is final for the record's current incarnation *)
 }.
 Definition fresh_timer (flags : Z) : timer :=
   let clock := Z.land (Z.shiftr flags 2) 3 in
-  mkT clock (nz (Z.land flags DISPATCH_TIMER_AFTER)) clock false UINT64_MAX UINT64_MAX UINT64_MAX 0 None false.
+  mkT clock (nz (Z.land flags DISPATCH_TIMER_AFTER)) clock false UINT64_MAX UINT64_MAX UINT64_MAX 0 None false 0.
 
 Record state := mkS {
   s_heaps : Z -> heap;         (* _dispatch_timers_heap[tidx] *)
@@ -133,13 +138,14 @@ Definition set_timer st t v := mkS (s_heaps st) (s_harmed st) (s_ktimer st) (s_d
 Definition set_dirty st b := mkS (s_heaps st) (s_harmed st) (s_ktimer st) b (s_timers st).
 Definition tm st t := s_timers st t.
 
-Definition with_armed (x : timer) b := mkT (t_clock x) (t_after x) (t_ident x) b (t_target x) (t_deadline x) (t_interval x) (t_pending x) (t_cfg x) (t_susp x).
-Definition with_ident (x : timer) i := mkT (t_clock x) (t_after x) i (t_armed x) (t_target x) (t_deadline x) (t_interval x) (t_pending x) (t_cfg x) (t_susp x).
-Definition with_pending (x : timer) p := mkT (t_clock x) (t_after x) (t_ident x) (t_armed x) (t_target x) (t_deadline x) (t_interval x) p (t_cfg x) (t_susp x).
-Definition with_values (x : timer) tg dl itv := mkT (t_clock x) (t_after x) (t_ident x) (t_armed x) tg dl itv (t_pending x) (t_cfg x) (t_susp x).
-Definition with_cfg (x : timer) c := mkT (t_clock x) (t_after x) (t_ident x) (t_armed x) (t_target x) (t_deadline x) (t_interval x) (t_pending x) c (t_susp x).
-Definition with_clock (x : timer) c := mkT c (t_after x) (t_ident x) (t_armed x) (t_target x) (t_deadline x) (t_interval x) (t_pending x) (t_cfg x) (t_susp x).
-Definition with_susp (x : timer) b := mkT (t_clock x) (t_after x) (t_ident x) (t_armed x) (t_target x) (t_deadline x) (t_interval x) (t_pending x) (t_cfg x) b.
+Definition with_armed (x : timer) b := mkT (t_clock x) (t_after x) (t_ident x) b (t_target x) (t_deadline x) (t_interval x) (t_pending x) (t_cfg x) (t_susp x) (t_reg x).
+Definition with_ident (x : timer) i := mkT (t_clock x) (t_after x) i (t_armed x) (t_target x) (t_deadline x) (t_interval x) (t_pending x) (t_cfg x) (t_susp x) (t_reg x).
+Definition with_pending (x : timer) p := mkT (t_clock x) (t_after x) (t_ident x) (t_armed x) (t_target x) (t_deadline x) (t_interval x) p (t_cfg x) (t_susp x) (t_reg x).
+Definition with_values (x : timer) tg dl itv := mkT (t_clock x) (t_after x) (t_ident x) (t_armed x) tg dl itv (t_pending x) (t_cfg x) (t_susp x) (t_reg x).
+Definition with_cfg (x : timer) c := mkT (t_clock x) (t_after x) (t_ident x) (t_armed x) (t_target x) (t_deadline x) (t_interval x) (t_pending x) c (t_susp x) (t_reg x).
+Definition with_clock (x : timer) c := mkT c (t_after x) (t_ident x) (t_armed x) (t_target x) (t_deadline x) (t_interval x) (t_pending x) (t_cfg x) (t_susp x) (t_reg x).
+Definition with_susp (x : timer) b := mkT (t_clock x) (t_after x) (t_ident x) (t_armed x) (t_target x) (t_deadline x) (t_interval x) (t_pending x) (t_cfg x) b (t_reg x).
+Definition with_reg (x : timer) r := mkT (t_clock x) (t_after x) (t_ident x) (t_armed x) (t_target x) (t_deadline x) (t_interval x) (t_pending x) (t_cfg x) (t_susp x) r.
 
 (* _dispatch_timer_unote_idx: DISPATCH_TIMER_INDEX(clock, 0) with DISPATCH_TIMER_QOS_COUNT = 1 *)
 Definition unote_idx (x : timer) : Z := t_clock x * DISPATCH_TIMER_QOS_COUNT + 0.
@@ -190,12 +196,15 @@ Definition configure (st : state) (t : Z) : state :=
 
 (* _dispatch_timer_unote_register for a non-background source (event.c:839) *)
 Definition register (st : state) (t : Z) : state :=
+  (* `if (_dispatch_unote_wlh(dt) != wlh) _dispatch_unote_state_set(dt, DISPATCH_WLH_ANON, 0)`: registered, not armed *)
+  let st := if t_reg (tm st t) =? 1 then st else set_timer st t (with_armed (with_reg (tm st t) 1) false) in
   match t_cfg (tm st t) with Some _ => configure st t | None => st end.
 
 (* _dispatch_timer_unote_unregister (event.c:921) *)
 Definition unregister (st : state) (t : Z) : state :=
   let st := if t_armed (tm st t) then disarm st t else st in
-  set_timer st t (with_ident (tm st t) DISPATCH_TIMER_IDENT_CANCELED).
+  (* _dispatch_unote_state_set(dt, DU_STATE_UNREGISTERED); dt->du_ident = DISPATCH_TIMER_IDENT_CANCELED *)
+  set_timer st t (with_ident (with_reg (tm st t) 2) DISPATCH_TIMER_IDENT_CANCELED).
 
 (* dispatch_source_set_timer stores the configuration (source.c:1309) *)
 Definition set_cfg (st : state) (t clock tg dl itv : Z) : state :=
@@ -210,8 +219,11 @@ Definition fire := (Z * Z * Z * Z)%type.
 Definition run_step (st : state) (tidx now : Z) (dr : Z) : state * list fire :=
   let x := tm st dr in
   if t_after x then
+    (* event.c:1055-1062: disarm; _dispatch_wlh_release; _dispatch_unote_state_set(dr, DU_STATE_UNREGISTERED);
+       ds_pending_data := 2; dux_merge_evt.  The unote is no longer registered: _dispatch_unote_needs_rearm is false
+       for it from now on, so source.c never resumes it again *)
     let st := disarm st dr in
-    let st := set_timer st dr (with_pending (tm st dr) 2) in
+    let st := set_timer st dr (with_pending (with_reg (tm st dr) 2) 2) in
     (st, [(dr, 2, now, t_target x)])
   else match t_cfg x with
   | Some _ => (configure st dr, [])
@@ -367,7 +379,8 @@ Definition obs_state (st : state) (n : Z) : list Z :=
                         [b2z (t_armed x); t_ident x; t_target x; t_deadline x; t_interval x; t_pending x;
                          if t_armed x then h_ent h 0 t else DTH_INVALID_ID;
                          if t_armed x then h_ent h 1 t else DTH_INVALID_ID;
-                         match t_cfg x with Some _ => 1 | None => 0 end]) (zrange n).
+                         match t_cfg x with Some _ => 1 | None => 0 end;
+                         b2z (t_reg x =? 1)]) (zrange n).
 
 (* output of one command: a tag list (events / kernel calls / value, flattened) and, for R P S, the state *)
 Definition tstep (n : Z) (st : state) (o : top) : state * list Z :=
